@@ -161,11 +161,22 @@ Proof. apply nest_bounded_of_total. vm_compute. apply le_n. Qed.
 Example demo_path_refused :
   checked 16384 (fun _ => 4096) guard_fns 0 demo_path = false.
 Proof. vm_compute. reflexivity. Qed.
+(* The guard predicate of the model ("starts with check_stack") means something only if
+   check_stack itself always looks at the stack pointer: the translator re-reads its body (one
+   comparison of the stack distance with STACK_BUDGET, no other early exit) and the one place
+   where stack_base is recorded (run_inner entry).  A conditional probe — a fast path, a counter,
+   a probe only every n-th call — breaks this obligation (and empties guard_fns). *)
+Example probe_shape_ok : probe_unconditional = true /\ stack_base_at_run_entry = true.
+Proof. vm_compute. split; reflexivity. Qed.
 (* the frame inequality is satisfiable with room to spare for 16 KiB frames, 8 nested blocks
-   inside the recursive function and 1 MiB kept free *)
+   inside the recursive function and 1 MiB kept free, counting the array locals of the frames
+   ABOVE the recorded base (main, the CLI's run_stdin read buffer, Runtime::run): the budget is
+   measured from the base, so whatever lies above it comes out of the same 8 MiB *)
 Example frame_inequality_example :
-  stack_budget + 16384 * (1 + (Z.of_nat 8 + 1) * runtime_L) + 1048576 < main_stack.
+  stack_budget + 16384 * (1 + (Z.of_nat 8 + 1) * runtime_L) + (1048576 + above_base_array_bytes) < main_stack.
 Proof. vm_compute. reflexivity. Qed.
+Example above_base_arrays_small : above_base_array_bytes <= 65536.
+Proof. vm_compute. discriminate. Qed.
 (* since the repair 78cfa01 (budget probe on block entry) nested blocks are no longer an
    unguarded descent of the evaluator: the only descent edges left are the value operations'
    recursion over nested data.  Removing that probe breaks this obligation. *)
